@@ -27,6 +27,8 @@ const (
 	KGosched  = "gosched"  // runtime.Gosched()
 	KCallback = "callback" // call of a user callback value (OnConnect/OnRequest/OnDisconnect/OnPrepare/CloseCallback)
 	KSysClose = "sysclose" // syscall.Close(fd)
+	KTimer    = "timer"    // time.NewTimer(d) / (*time.Timer).Reset(d) / (*time.Timer).Stop()
+	KKernel   = "kernel"   // call of the package's own sendmsg wrapper (the kernel's answer is scripted under the scheduler)
 )
 
 // Op is one synchronisation operation.
@@ -48,7 +50,9 @@ func init() {
 		"Store", "Load", "Delete", "Range", "Add", "Wait", "Done", "CompareAndSwap",
 		// calls of other functions of the lifecycle protocol (so a removed/added call shows in the list)
 		"onDisconnect", "onConnect", "onRequest", "onProcess", "closeCallback", "onClose", "IsActive",
-		"RunTask", "Len", "IsEmpty", "bookAck", "freeable", "reset", "register", "onPrepare", "closeBuffer"} {
+		"RunTask", "Len", "IsEmpty", "bookAck", "freeable", "reset", "register", "onPrepare", "closeBuffer",
+		// read / flush protocols (C07, C08)
+		"waitReadWithTimeout", "flush", "waitFlush", "rw2r", "Skip", "Release", "GetBytes", "Flush", "Malloc"} {
 		protocolMethods[n] = true
 	}
 }
@@ -77,6 +81,19 @@ func pkgPathOf(info *types.Info, x ast.Expr) string {
 		}
 	}
 	return ""
+}
+
+func isTimer(t types.Type) bool {
+	if t == nil {
+		return false
+	}
+	if p, ok := t.(*types.Pointer); ok {
+		t = p.Elem()
+	}
+	if n, ok := t.(*types.Named); ok && n.Obj().Pkg() != nil {
+		return n.Obj().Pkg().Path() == "time" && n.Obj().Name() == "Timer"
+	}
+	return false
 }
 
 func isAtomicValue(t types.Type) bool {
@@ -150,6 +167,15 @@ func Ops(fset *token.FileSet, info *types.Info, body *ast.BlockStmt) []Op {
 						add(KSysClose, "syscall.Close("+argList(fset, x.Args)+")", x, "")
 						return true
 					}
+				case "time":
+					if sel.Sel.Name == "NewTimer" && len(x.Args) == 1 {
+						add(KTimer, "time.NewTimer("+argList(fset, x.Args)+")", x, "NewTimer")
+						return true
+					}
+				}
+				if info != nil && (sel.Sel.Name == "Reset" || sel.Sel.Name == "Stop") && isTimer(info.TypeOf(sel.X)) {
+					add(KTimer, ExprStr(fset, sel)+"("+argList(fset, x.Args)+")", x, sel.Sel.Name)
+					return true
 				}
 				if protocolMethods[sel.Sel.Name] {
 					kind := KCall
@@ -159,6 +185,14 @@ func Ops(fset *token.FileSet, info *types.Info, body *ast.BlockStmt) []Op {
 					add(kind, ExprStr(fset, sel)+"("+argList(fset, x.Args)+")", x, sel.Sel.Name)
 					return true
 				}
+			}
+			if id, ok := x.Fun.(*ast.Ident); ok && id.Name == "sendmsg" && len(x.Args) == 4 {
+				add(KKernel, "sendmsg("+argList(fset, x.Args)+")", x, "sendmsg")
+				return true
+			}
+			if id, ok := x.Fun.(*ast.Ident); ok && id.Name == "iosend" {
+				add(KCall, "iosend("+argList(fset, x.Args)+")", x, "iosend")
+				return true
 			}
 			if id, ok := x.Fun.(*ast.Ident); ok && id.Name == "close" && len(x.Args) == 1 {
 				add(KClose, "close "+ExprStr(fset, x.Args[0]), x, "")
